@@ -413,6 +413,8 @@ class FrameAnalysis:
                 self.problem("atan2(y, x) called with the cos-component first and the sin-component second "
                              "(east/north swapped)", t)
                 return MIXED("atan2 argument roles")
+            if "unknown" in (ty[0], tx[0]):
+                return ty if ty[0] == "unknown" else tx
             if "mixed" in (ty[0], tx[0]):
                 return ty if ty[0] == "mixed" else tx
             self.problem("atan2 of quantities that are not a covariant (cos, sin) pair", t)
@@ -457,6 +459,8 @@ class FrameAnalysis:
             return self.ftype(t.args[2])
         if f in ("never", "keep"):
             return ZERO_T
+        if f in ("outer", "ext_numpy_outer") and len(t.args) == 2:
+            return self.ftype(t.args[0] * t.args[1])
         ts = [self.ftype(a) for a in t.args]
         for x in ts:
             if x[0] == "mixed":
